@@ -547,6 +547,12 @@ func (x *Exec) evalField(env *SpecEnv, e EField) Val {
 		}
 		idx, emb := findField(su, e.Name)
 		if idx < 0 {
+			// a ghost field declared for this struct type ("ghoststruct pkg.T")
+			name := types.TypeString(pt, func(p *types.Package) string { return p.Name() })
+			if is, ok := x.DB.Ifaces["struct:"+name]; ok {
+				a := x.ghostAddr(is, e.Name, base)
+				return Val{T: x.loadAddr(env.cur, a), Typ: a.T}
+			}
 			panic(specErr("no field %s in %s", e.Name, pt))
 		}
 		_ = emb
@@ -792,6 +798,19 @@ func (x *Exec) evalCall(env *SpecEnv, e ECall) Val {
 		return Val{T: mkIte(lt, b.T, a.T), Typ: a.Typ}
 	}
 	switch e.Fun {
+	case "locked", "rlocked", "unlocked":
+		// ghost state of a mutex field: held exclusively / held at least shared / not held
+		held := x.lockStateOf(env, e.Args[0])
+		var t Term
+		switch e.Fun {
+		case "locked":
+			t = mkEq(held, intLit(2))
+		case "rlocked":
+			t = Term{app(">=", held, intLit(1)), "Bool"}
+		default:
+			t = mkEq(held, intLit(0))
+		}
+		return Val{T: t, Typ: types.Typ[types.Bool]}
 	case "has", "add", "del":
 		// ghost sets: membership, insertion, removal
 		s := x.evalVal(env, e.Args[0])
